@@ -52,7 +52,7 @@ def index_factory(quick, seed):
         x = (onp.modf((onp.arange(n) + 1 + seed) * 0.6180339887)[0] + 0.5).reshape(shape)
         if form == "tuple":
             k = ch.choose("natoms", list(range(1, nd + 2)))
-            atoms = [ch.choose("atom%d" % i, ATOMS if (k <= 2 or not quick) else ATOMS_SMALL) for i in range(k)]
+            atoms = [ch.choose("atom%d" % i, ATOMS if (k <= 2 or (k == 3 and not quick)) else ATOMS_SMALL) for i in range(k)]
             if atoms.count("...") > 1:
                 raise Skip("two ellipses")
             src = ", ".join(atoms) + ("," if k == 1 and ch.flag("as_1tuple") else "")
